@@ -673,30 +673,30 @@ func ruleSettingsValidation(c *Ctx, rule string) {
 				if ok {
 					if _, ch := fieldChain(x); len(ch) == 1 && ch[0] == "StreamId" {
 						if k, isK := constInt(y); isK && k == -1 && op == token.NEQ {
-							cases["bad stream id"].found = good
+							cases["bad stream id"].found = cases["bad stream id"].found || good
 						}
 					}
 					if op == token.NEQ && isNilConst(y) {
 						if ex, isEx := origin(x).(*ssa.Extract); isEx && ex.Index == 1 {
-							cases["read failure"].found = good
+							cases["read failure"].found = cases["read failure"].found || good
 						}
 					}
 				}
 				nf := normFact(f)
 				if ex, isEx := origin(nf.Cond).(*ssa.Extract); isEx && ex.Index == 1 && !nf.True {
 					if _, isTA := ex.Tuple.(*ssa.TypeAssert); isTA {
-						cases["wrong first frame"].found = good
+						cases["wrong first frame"].found = cases["wrong first frame"].found || good
 					}
 				}
 				if phi, isPhi := origin(nf.Cond).(*ssa.Phi); isPhi && !nf.True && phi.Comment == "supported" {
-					cases["no common revision"].found = good
+					cases["no common revision"].found = cases["no common revision"].found || good
 				}
 				if hc, isHC := origin(nf.Cond).(*ssa.Call); isHC && !nf.True {
 					// the selection loop in a private helper that returns its loop-carried "found" flag
 					if h := helperCallee(hc); h != nil {
 						forEachReturnValue(h, 0, func(rv ssa.Value, at ssa.Instruction) {
 							if phi, isPhi := rv.(*ssa.Phi); isPhi && inLoopPhi(phi) {
-								cases["no common revision"].found = good
+								cases["no common revision"].found = cases["no common revision"].found || good
 							}
 						})
 					}
